@@ -491,7 +491,11 @@ def run(ctx) -> None:
     # pfba(objective=...) / the objectives the secondary problems install go through set_objective: that it leaves
     # exactly the given coefficients and keeps the direction is C04.objective (shared; the symbolic model of the clauses
     # above plays `model.objective = ...` natively)
-    from . import objform
+    from . import objform, solform
 
+    # the Solution handed back is read off the solver by get_solution(model, reactions=...): every flux under the
+    # identifier of its own reaction for any order of the request (shared with C04)
+    ctx.rule("C04.labels", "finite evaluation: get_solution puts every value under the identifier of its own reaction / metabolite, whatever the order of the request (shared with C04)", floor=1)
+    ctx.guard(solform.check_get_solution, ctx, "C04.labels")
     ctx.rule("C04.objective", "finite evaluation: set_objective leaves exactly the given coefficients in the solver objective and keeps its direction (shared with C04)", floor=1)
     ctx.guard(objform.check_set_objective, ctx, "C04.objective")
